@@ -18,7 +18,7 @@ ENGINE = {'name': 'router',
          'shapes x 8 handler chains x 8 arrival schedules of <=3 chunks: every 1- and 2-route configuration, and the 3-route space completely in '
          'thorough / a seed-shifted stride of it in quick, all through the oracle; an evenly spaced slice of them plus random instances '
          '(1..6 routes, nested not, subroutes, scripts with interleaved timeouts/errors) plus configurations around MaxMatchingBytes are emitted '
-         'for the in-Coq comparison of the full event trace. Non-trivial = at least one prefetch pass happened and a route ran or the list has '
+         'for the in-Coq comparison of the full event trace. The corpus, the 0/1-route and random configurations and every fifth other one whose script has chunks only are ALSO run in listener-wrapper form (real listener.handle, real listenerHandler as fallback, wrapping handlers optionally recording a TLS connection state): the wrapped listener must be handed the connection exactly when the fallback is due and must read exactly the unconsumed stream of the client from it (keys C02:listener:*; oracle only). Non-trivial = at least one prefetch pass happened and a route ran or the list has '
          '>= 2 routes; distinct = distinct (routes, script, trace) terms',
  'trusted_base': ['the scripted net.Conn, matchers, handlers and the zap core that classifies Compile\'s log lines into drop reasons (harness)',
                   'in the router engine the subroute handler is re-stated as `routes.Compile(logger, timeout, next).Handle(cx)` because package layer4 '
